@@ -134,17 +134,10 @@ fn body<D1: D + ?Sized>(d: &D1, name: &str, a: u8) -> Val {
     Val::new(format!("{name}({a})[{}]", parts.join(",")))
 }
 
-#[unimock(api=DMock, unmock_with=[real_r0, _, _, real_u2(b, a), real_u3, _, _, _, _, _, _, real_mm])]
+#[unimock(api=DMock, unmock_with=[real_r0, _, real_u2(b, a), real_u3, _, _, _, _, _, _, real_mm, _])]
 pub trait D {
     fn r0(&self, a: u8) -> Val;
     fn r1(&self, a: u8) -> Val;
-    /// skipped by the macro, but occupies an unmock_with slot
-    fn assoc_d() -> u8
-    where
-        Self: Sized,
-    {
-        1
-    }
     fn u2(&self, a: u8, b: u8) -> Val;
     fn u3(&self, a: u8, b: u8) -> Val;
     fn p_ref(&self, a: u8) -> Val {
@@ -169,6 +162,14 @@ pub trait D {
         body(&*self, "dflt19", a)
     }
     fn m_mut(&mut self, a: u8) -> Val;
+    /// skipped by the macro, but occupies an unmock_with slot (last, so that nothing in this trait
+    /// depends on how slots after a skipped function are counted; trait T covers that)
+    fn assoc_d() -> u8
+    where
+        Self: Sized,
+    {
+        1
+    }
 }
 
 pub fn real_r0(_: &impl D, a: u8) -> Val {
@@ -177,10 +178,12 @@ pub fn real_r0(_: &impl D, a: u8) -> Val {
 }
 /// registered as `real_u2(b, a)`: explicit parameter expressions, no mock argument
 pub fn real_u2(x: u8, y: u8) -> Val {
+    user_panic_if_armed(1, "user:real");
     Val::new(format!("real12({x},{y})"))
 }
 /// recursion through the mock: depth a
 pub fn real_u3(d: &impl D, a: u8, b: u8) -> Val {
+    user_panic_if_armed(1, "user:real");
     if a == 0 {
         Val::new(format!("base({b})"))
     } else {
